@@ -1,5 +1,8 @@
 import AslProofs.Matrix
 import AslProofs.Solve
+import AslProofs.Euler
+import Mathlib.Analysis.SpecialFunctions.Trigonometric.Inverse
+import Mathlib.Analysis.SpecialFunctions.Complex.Arg
 import Mathlib.LinearAlgebra.Matrix.Nondegenerate
 import Mathlib.LinearAlgebra.CrossProduct
 import Gen.Vec3Gen
@@ -19,7 +22,7 @@ Property theorems only (helper lemmas: `AslProofs/Matrix.lean`, `AslProofs/Solve
   interface the models are written against); nothing here is about IEEE floating point.
 -/
 namespace C20
-open AslModel AslModel.Solve AslProofs.Matrix AslProofs.Solve
+open AslModel AslModel.Solve AslProofs.Matrix AslProofs.Solve AslProofs.Euler
 
 variable {K : Type} [Field K]
 
@@ -360,6 +363,112 @@ theorem inverse_exact (pick : (Nat → K) → Nat → Nat → Nat) (hpick : Pick
     ext i j
     simp [toMat, Matrix.one_apply, Fin.ext_iff]
   exact ⟨h1, (Matrix.inv_eq_right_inv h1).symm⟩
+
+/-! ## Euler angles: all twelve axis orders, moving and fixed frames
+
+`rotateEs r a0 a1 a2 fixed` is `Matrix4::rotateE(r, "ABC")` (`fixed = false`) resp. `rotateE(r, "ABC*")`, and
+`eulerAngless` the corresponding `eulerAngles("ABC")` / `eulerAngles("ABC*")`, with `a0 a1 a2` the indices of the axis
+letters.  The trigonometric functions are an arbitrary `Trig` satisfying `TrigOK` (an `example` below shows that the
+real functions do); arithmetic is exact.  `lim ≤ 1` is the gimbal-lock threshold of the code. -/
+
+/-- reversing the components twice is the identity -/
+theorem zyx_zyx {R : Type} (v : V3 R) : Gen.M4.zyx (Gen.M4.zyx v) = v := rfl
+
+section euler
+variable {R : Type} [Field R] [LinearOrder R] [IsStrictOrderedRing R]
+
+/-- **away from gimbal lock** (the general branch is taken): for every triple of angles `r` (any values, any of the
+12 axis orders, moving or fixed frame), `rotateE(eulerAngles(rotateE(r)))` is the same rotation matrix as `rotateE(r)` -/
+theorem euler_roundtrip {T : Trig R} (hT : TrigOK T) (C : Cmp R) (hlt : ∀ a b, C.lt a b = decide (a < b))
+    (habs : ∀ x, C.abs x = |x|) (lim : R) (hlim : lim ≤ 1) (fixed : Bool) (r : V3 R)
+    (a0 a1 a2 : Nat) (h0 : a0 < 3) (h1 : a1 < 3) (h2 : a2 < 3) (h01 : a0 ≠ a1) (h12 : a1 ≠ a2)
+    (hnd : if a0 = a2 then |T.cos r.y| < lim else |T.sin r.y| < lim) :
+    toM4 (Gen.M4.rotateEs (fld R) T
+      (Gen.M4.eulerAngless (fld R) C T lim (Gen.M4.rotateEs (fld R) T r a0 a1 a2 fixed) a0 a1 a2 fixed) a0 a1 a2 fixed) =
+    toM4 (Gen.M4.rotateEs (fld R) T r a0 a1 a2 fixed) := by
+  cases fixed
+  · simp only [Gen.M4.rotateEs, Gen.M4.eulerAngless, Bool.false_eq_true, if_false]
+    by_cases e : a0 = a2
+    · subst e
+      rw [if_pos rfl] at hnd
+      exact euler_pe_roundtrip hT C hlt habs lim hlim r a0 a1 h0 h1 h01 hnd
+    · rw [if_neg e] at hnd
+      exact euler_tb_roundtrip hT C hlt habs lim hlim r a0 a1 a2 h0 h1 h2 h01 h12 e hnd
+  · simp only [Gen.M4.rotateEs, Gen.M4.eulerAngless, if_true, zyx_zyx]
+    by_cases e : a0 = a2
+    · subst e
+      rw [if_pos rfl] at hnd
+      exact euler_pe_roundtrip hT C hlt habs lim hlim (Gen.M4.zyx r) a0 a1 h0 h1 h01 hnd
+    · rw [if_neg e] at hnd
+      exact euler_tb_roundtrip hT C hlt habs lim hlim (Gen.M4.zyx r) a2 a1 a0 h2 h1 h0 (Ne.symm h12) (Ne.symm h01) (Ne.symm e) hnd
+
+/-- **exactly on the gimbal lock** (`cos β = 0` for three different axes, `sin β = 0` for first = third axis): the
+degenerate branch reproduces the rotation as well -/
+theorem euler_roundtrip_locked {T : Trig R} (hT : TrigOK T) (C : Cmp R) (hlt : ∀ a b, C.lt a b = decide (a < b))
+    (habs : ∀ x, C.abs x = |x|) (lim : R) (hlim : lim ≤ 1) (fixed : Bool) (r : V3 R)
+    (a0 a1 a2 : Nat) (h0 : a0 < 3) (h1 : a1 < 3) (h2 : a2 < 3) (h01 : a0 ≠ a1) (h12 : a1 ≠ a2)
+    (hlock : if a0 = a2 then T.sin r.y = 0 else T.cos r.y = 0) :
+    toM4 (Gen.M4.rotateEs (fld R) T
+      (Gen.M4.eulerAngless (fld R) C T lim (Gen.M4.rotateEs (fld R) T r a0 a1 a2 fixed) a0 a1 a2 fixed) a0 a1 a2 fixed) =
+    toM4 (Gen.M4.rotateEs (fld R) T r a0 a1 a2 fixed) := by
+  cases fixed
+  · simp only [Gen.M4.rotateEs, Gen.M4.eulerAngless, Bool.false_eq_true, if_false]
+    by_cases e : a0 = a2
+    · subst e
+      rw [if_pos rfl] at hlock
+      exact euler_pe_locked hT C hlt habs lim hlim r a0 a1 h0 h1 h01 hlock
+    · rw [if_neg e] at hlock
+      exact euler_tb_locked hT C hlt habs lim hlim r a0 a1 a2 h0 h1 h2 h01 h12 e hlock
+  · simp only [Gen.M4.rotateEs, Gen.M4.eulerAngless, if_true, zyx_zyx]
+    by_cases e : a0 = a2
+    · subst e
+      rw [if_pos rfl] at hlock
+      exact euler_pe_locked hT C hlt habs lim hlim (Gen.M4.zyx r) a0 a1 h0 h1 h01 hlock
+    · rw [if_neg e] at hlock
+      exact euler_tb_locked hT C hlt habs lim hlim (Gen.M4.zyx r) a2 a1 a0 h2 h1 h0 (Ne.symm h12) (Ne.symm h01) (Ne.symm e) hlock
+
+/-- the matrix entries that `eulerAngles` feeds to `asin`/`atan2` (three different axes) are exactly
+`sin β`, `cos β·(sin α, cos α)` and `cos β·(sin γ, cos γ)` of the angles the matrix was built from -/
+theorem euler_arguments (T : Trig R) (r : V3 R) (a0 a1 a2 : Nat) (h0 : a0 < 3) (h1 : a1 < 3) (h2 : a2 < 3)
+    (h01 : a0 ≠ a1) (h12 : a1 ≠ a2) (h02 : a0 ≠ a2) :
+    (-(tbSign a0 a1 : R)) * Gen.M4.rotateE (fld R) T r a0 a1 a2 a0 a2 = T.sin r.y ∧
+    tbSign a0 a1 * Gen.M4.rotateE (fld R) T r a0 a1 a2 a1 a2 = T.sin r.x * T.cos r.y ∧
+    Gen.M4.rotateE (fld R) T r a0 a1 a2 a2 a2 = T.cos r.x * T.cos r.y ∧
+    tbSign a0 a1 * Gen.M4.rotateE (fld R) T r a0 a1 a2 a0 a1 = T.sin r.z * T.cos r.y ∧
+    Gen.M4.rotateE (fld R) T r a0 a1 a2 a0 a0 = T.cos r.z * T.cos r.y :=
+  tb_entries T r a0 a1 a2 h0 h1 h2 h01 h12 h02
+
+end euler
+
+/-- the real `cos`, `sin`, `arcsin`, `arccos`, `atan2(y, x) = arg(x + iy)`, `π` satisfy `TrigOK` -/
+example : TrigOK (⟨Real.cos, Real.sin, Real.arcsin, Real.arccos, fun y x => Complex.arg ⟨x, y⟩, Real.pi⟩ : Trig ℝ) where
+  unit x := by have := Real.cos_sq_add_sin_sq x; nlinarith
+  asin_spec y h1 h2 := ⟨Real.sin_arcsin h1 h2, Real.cos_arcsin_nonneg y⟩
+  acos_spec y h1 h2 := ⟨Real.cos_arccos h1 h2, by
+    show 0 ≤ Real.sin (Real.arccos y)
+    rw [Real.sin_arccos]; exact Real.sqrt_nonneg _⟩
+  atan2_spec s c h := by
+    have hz : (⟨c, s⟩ : ℂ) ≠ 0 := by
+      intro e
+      have h1 := congrArg Complex.re e
+      have h2 := congrArg Complex.im e
+      simp at h1 h2
+      rcases h with h | h
+      · exact h h2
+      · exact h h1
+    refine ⟨‖(⟨c, s⟩ : ℂ)‖, norm_pos_iff.mpr hz, ?_, ?_⟩
+    · show s = _ * Real.sin (Complex.arg ⟨c, s⟩)
+      rw [Complex.sin_arg]; field_simp
+    · show c = _ * Real.cos (Complex.arg ⟨c, s⟩)
+      rw [Complex.cos_arg hz]; field_simp
+  sin_zero := Real.sin_zero
+  cos_zero := Real.cos_zero
+  sin_neg := Real.sin_neg
+  cos_neg := Real.cos_neg
+  sin_half_pi := Real.sin_pi_div_two
+  cos_half_pi := Real.cos_pi_div_two
+  sin_pi := Real.sin_pi
+  cos_pi := Real.cos_pi
 
 /-! ## the hypotheses are satisfiable -/
 
